@@ -42,11 +42,51 @@ def unsupported_shapes():
                 samples=[], exhaustive=True, violations=list(seen.values()), seconds=0.0)
 
 
+NON_SET_ON_PATH = [
+    # (document, path): the path runs through a value that is not a set; the edit must be refused and leave the document alone
+    ('{\n  a = 1;\n  src = fetchurl {\n    inherit sha256;\n  };\n  sha256 = "x";\n}\n', "a.src.sha256"),
+    ('{\n  a = 1;\n  src = fetchurl {\n    inherit sha256;\n  };\n  sha256 = "x";\n}\n', "a.sha256"),
+    ('{\n  a = "s";\n  b = 2;\n}\n', "a.b"),
+    ('{\n  a = [ 1 ];\n  b = 2;\n}\n', "a.b.c"),
+    ('{\n  a = f x;\n  x = 2;\n}\n', "a.x"),
+]
+
+
+def non_set_on_path():
+    from nix_manipulator import parse
+    from nix_manipulator.cli.manipulations import set_value
+
+    vio = []
+    for text, path in NON_SET_ON_PATH:
+        src = parse(text)
+        before = src.rebuild()
+        try:
+            set_value(src, path, '"y"')
+            sym = "edit-that-cannot-be-applied-was-accepted:non-set on the path"
+        except (KeyError, ValueError):
+            sym = None if src.rebuild() == before else "refused-edit-changed-document"
+        except Exception as e:
+            sym = f"refusal-is-neither-KeyError-nor-ValueError:{type(e).__name__}"
+        if sym:
+            vio.append(dict(check="non-set-on-path", signature=f"{sym}|set {path}|{text.splitlines()[2].strip() if 'src' in text else text.splitlines()[1].strip()}",
+                            what=f"C08 {sym}: set {path} on {text!r}", has_input=True, inputs={"nonset": [text, path]},
+                            failing_input={"inputs": {"text": text, "op": "set", "path": path, "value": '"y"'}, "observed": sym, "origin": "bounded enumeration"}))
+    return dict(evaluations=len(NON_SET_ON_PATH), distinct_nontrivial=len(NON_SET_ON_PATH), rule="5 paths that run through a non-set value (incl. next to an `inherit` of the last segment)",
+                samples=[], exhaustive=True, violations=vio, seconds=0.0)
+
+
 def run(tier, seed):
-    return E.merge(E.run_edits("C08", tier, seed), unsupported_shapes())
+    return E.merge(E.run_edits("C08", tier, seed), unsupported_shapes(), non_set_on_path())
 
 
 def replay(v):
+    if "nonset" in v["inputs"]:
+        hit = [x for x in non_set_on_path()["violations"] if x["signature"] == v.get("signature")]
+        print(hit[:1] or "not reproduced")
+        if hit:
+            print("VIOLATION property=C08 replay=<given>")
+            return 1
+        return 0
     if "shape" in v["inputs"]:
         r = unsupported_shapes()
         hit = [x for x in r["violations"] if x["signature"] == v.get("signature")]
